@@ -313,6 +313,7 @@ impl System {
             Kind::Many => "stream-item",
             Kind::Never => "answer-to-notification",
         };
+        self.last = format!("typed twin not yet told | {}", o.class());
         let wf = if decoded.is_ok() { "-wellformed" } else { "" };
         let mut f = self.account(&format!("{target}{wf}"), b, &o.class());
         if let Outcome::Panicked(p) = &o {
